@@ -342,6 +342,12 @@ func Edit(r *Rng, data []byte, k int) ([]byte, int) {
 			}
 		case 1: // insert
 			ins := r.Bytes(n)
+			if r.Intn(4) == 0 {
+				// a run of one repeated byte longer than a block (padding): while the differ rolls over it the weak
+				// hash of consecutive windows does not change
+				n = r.Pick(BS+1, BS+4464, 2*BS+5)
+				ins = bytes.Repeat([]byte{byte(r.Intn(256))}, n)
+			}
 			out = append(out[:pos], append(ins, out[pos:]...)...)
 			introduced += n
 		default: // delete
@@ -498,6 +504,19 @@ func GenPair(r *Rng, o PairOpts) (old, nw *Build, rel []string) {
 				addNew(b.Path, a.Data)
 				addNew(genPath(r, usedOld, ".chain"), b.Data)
 				rel = append(rel, "rename-chain")
+			}
+		}
+	}
+	// the content of one old file ALSO lands on the path of another old file, whose own content is gone:
+	// in place this is a copy onto an existing (longer or shorter) file
+	if len(oldFiles) >= 2 && r.Intn(3) == 0 {
+		a, b := oldFiles[r.Intn(len(oldFiles))], oldFiles[r.Intn(len(oldFiles))]
+		if a.Path != b.Path && len(a.Data) != len(b.Data) && nw.Find(a.Path) != nil {
+			nw.Remove(b.Path)
+			delete(usedNew, b.Path)
+			delete(usedNew, "F:"+b.Path)
+			if addNew(b.Path, a.Data) {
+				rel = append(rel, "copied-over-existing")
 			}
 		}
 	}
